@@ -24,6 +24,12 @@ def judge(case, g, one_one_only=False):
     if not s.get("ty_ok", True) or not g["witness_typed"]:
         return ("c08:types", "pruned program carries an ill-typed value")
     a = g["again"]
+    # recorded finding: a node shared between the executed part and a hidden branch keeps the type the hidden branch
+    # forced on it, so the pruned program's arrows are not its own principal ones; everything below follows from that
+    if g.get("principal") is False and (a["res"] != "ok" or not a["same_bytes"] or g["redecode"] != "ok" or g["c"].get("err", 0) != 0):
+        return ("c08:pruned-types-not-principal", "the pruned program's types are not the principal types of the pruned program "
+                "(a shared node is still constrained by a hidden branch): pruning again %s, redecode %s, libsimplicity err %s"
+                % ("changes it" if not a.get("same_bytes") else "is stable", g["redecode"], g["c"].get("err")))
     if a["res"] != "ok" or not a["same_bytes"]:
         return ("c08:not-idempotent", "pruning the pruned program changes it: %s" % a)
     c = g["c"]
@@ -71,7 +77,7 @@ def body(c):
     c.extra["notes"] = notes
     c.sample({"program": cases[0]["dag"], "witnesses": cases[0]["aux"], "pruned": cases[0]["pdag"]})
     # impl -> spec: generated 1->1 programs with cases at depth, shared cases, jets, disconnect
-    runs = 150 if q else 2500
+    runs = 400 if q else 4000
     tpath = os.path.join(c.work, "trace.ndjson")
     c.vh(["c08", "record", runs, tpath], timeout=3000)
     def describe(ev):
